@@ -498,7 +498,9 @@ static int pick(vthread_t* cur) {
       g_spin_resumes = 0;
     }
     if (g_spin_resumes < 40) {
-      for (int i = 0; i < g_nthr; i++) {
+      static int rr;
+      for (int j = 0; j < g_nthr; j++) {
+        int i = (rr + 1 + j) % g_nthr; /* round robin: every waiting thread gets its retries */
         vthread_t* t = &g_thr[i];
         /* busy-waiters (heuristic, or cpu_relax after e.g. a failed CAS from a stale snapshot,
            whose retry needs no foreign change) get a bounded number of retries */
@@ -506,6 +508,7 @@ static int pick(vthread_t* cur) {
             !(t->wait_for >= 0 && g_thr[t->wait_for].alive)) {
           g_spin_resumes++;
           t->quiet_points = 0;
+          rr = i;
           return i;
         }
       }
